@@ -459,9 +459,44 @@ def scripted():
     ]
 
 
+def image_words(ctx, R):
+    """sh._image_re (which command-line words name something inside an image, and how they split) against the scanner of
+    Shell/Paths.v: structured words (image : [partition] path, image names with colons, partitions with leading zeros /
+    four digits / zero), words over a small alphabet exhaustively, and random ones"""
+    import itertools
+    import nobodd.sh as SH
+    rng = ctx.rng
+    words = ['disk.img:1/a', 'disk.img:/a', 'disk.img:1', 'disk.img:', ':1/x', ':/x', ':', '', '/host/path', 'rel/path', 'a:b:2/x', 'a:/b:2/x',
+             'd:01/a', 'd:0/a', 'd:10/a', 'd:100/a', 'd:999/a', 'd:1000/a', 'd:1234/a', 'd:12a/x', 'd:1/', 'd:1//x', 'C:\\dir\\f', 'd:1/a\n',
+             'd:1/a\nb', 'd\n:1/a', 'd:1\n/a', 'd:1/a\n\n', 'é.img:2/ü', 'd:9/日本', 'img:1/p:2/q', 'img:x:1/p', 'img::1/p', 'img::/p', 'a:1:2/p',
+             'a:12:/p', 'a:/', 'a:1/ ', ' a:1/x', 'a :1/x', 'a: 1/x', 'a:1 /x', 'a:+1/x', 'a:١/x', 'a:1/x:y', 'http://host/x', 'file:///etc']
+    alpha = 'a:/19\n0'
+    for n in range(0, 6 if ctx.thorough else 5):
+        words += [''.join(t) for t in itertools.product(alpha, repeat=n)]
+    for _ in range(3000 if ctx.thorough else 600):
+        words.append(''.join(rng.choice('ab:/:/0129 .\n-') for _ in range(rng.randint(0, 14))))
+    seen = set()
+    words = [w for w in words if not (w in seen or seen.add(w))]
+    got = R.batch('parse_words', [[w] for w in words], chunk=400) if hasattr(R, 'batch') else None
+    out = []
+    if got is None:
+        got = [R.call('parse_words', [w])[0] for w in words]
+    else:
+        got = [g[0] for g in got]
+    for w, g in zip(words, got):
+        m = SH._image_re.match(w)
+        want = None if m is None else (m['image'], int(m['part'] or -1), m['path'])
+        model = None if not g else (lib.as_text(g[0]), (g[1][0] if g[1] else -1), lib.as_text(g[2]))
+        ctx.case(('image-word', w), m is not None, 'image-word-' + ('match' if m else 'host'))
+        if want != model:
+            _viol(ctx, 'sh.model/image-word', f'sh._image_re splits {w!r} as {want}, the scanner of Shell/Paths.v as {model}', dict(api='image-word', word=w))
+            return
+
+
 def run(ctx):
     rng = ctx.rng
     R = ctx.runner('Shell')
+    image_words(ctx, R)
     worker = S.Worker()
     t0 = time.time()
     budget = 600 if ctx.thorough else 75
